@@ -34,6 +34,10 @@ func c01NewManager(scaleMin bool, sysMax, defMax corev1.ResourceList) *c01Manage
 	return core.NewGroupQuotaManager("", scaleMin, sysMax, defMax)
 }
 
+func c01NewTreeManager(tree string, scaleMin bool, sysMax, defMax corev1.ResourceList) *c01Manager {
+	return core.NewGroupQuotaManager(tree, scaleMin, sysMax, defMax)
+}
+
 func c01Quiet() {
 	var l klog.Level
 	_ = l.Set("0")
@@ -64,6 +68,13 @@ func c01Tombstone(name, resourceVersion string) bool {
 func (d *c01PluginDriver) c01Counts() map[string]int { return d.counts }
 
 func (d *c01PluginDriver) Manager() *c01Manager { return d.pl.groupQuotaManager }
+func (d *c01PluginDriver) Summaries() map[string]map[string]*c01Summary {
+	out := map[string]map[string]*c01Summary{"": d.pl.groupQuotaManager.GetQuotaSummaries(true)}
+	for _, mgr := range d.pl.ListGroupQuotaManagersForQuotaTree() {
+		out[mgr.GetTreeID()] = mgr.GetQuotaSummaries(true)
+	}
+	return out
+}
 
 func (d *c01PluginDriver) QuotaUpsert(old, new *v1alpha1.ElasticQuota) error {
 	if old == nil {
@@ -158,4 +169,10 @@ func TestVerifC01PluginMigrateRace(t *testing.T) {
 	rec := vk.New(t, "C01", "pluginMigrateRace")
 	mk := c01PluginMaker(t)
 	rapid.Check(t, func(t *rapid.T) { c01RunMigrateRace(t, rec, mk) })
+}
+
+func TestVerifC01PluginMultiTree(t *testing.T) {
+	rec := vk.New(t, "C01", "pluginMultiTree")
+	mk := c01PluginMaker(t)
+	rapid.Check(t, func(t *rapid.T) { c01RunMultiTree(t, rec, mk) })
 }
